@@ -210,6 +210,18 @@ def xyz(lon, lat):
     return (math.cos(lon) * cl, math.sin(lat), math.sin(lon) * cl)
 
 
+def centre_lonlat(tile):
+    """(lon, lat) of the normalised sum of the four corner vectors of a tile: a point well inside it"""
+    import math
+    v = [0.0, 0.0, 0.0]
+    for c in tile.corners:
+        x = xyz(float(c[0]), float(c[1]))
+        v = [a + b for a, b in zip(v, x)]
+    n = math.sqrt(sum(a * a for a in v))
+    v = [a / n for a in v]
+    return (math.atan2(v[2], v[0]), math.asin(max(-1.0, min(1.0, v[1]))))
+
+
 def chord(p, q):
     a, b = xyz(*p), xyz(*q)
     return math.sqrt(sum((u - v) ** 2 for u, v in zip(a, b)))
